@@ -46,7 +46,7 @@ def install(E, tty=(1, 0, 1), stdin_data=None):
                         b = simp(z3.Extract(7, 0, v))
                         if E.feasible(st, z3.UGT(v, 255) if v.size() > 8 else z3.BoolVal(False)): raise Unsupported('symbolic %02x argument may exceed one byte')
                         for nib in (z3.LShR(b, 4), b & 0xf): out.append(simp(z3.If(z3.ULT(nib, 10), nib + 0x30, nib + 0x57)))
-                    elif conv == 'd' and not spec: out += [z3.BitVec('fmtnum_%d' % E.fresh(), 8)]          # opaque (only used in diagnostics)
+                    elif not spec: out += [z3.BitVec('fmtnum_%d' % E.fresh(), 8)]          # opaque: a symbolic number in a message stands for its digits (only used in diagnostics)
                     else: raise Unsupported('symbolic value in %%%s%s' % (spec, conv))
                 else:
                     x = mask(v, bits)
